@@ -203,6 +203,7 @@ def run(repo: str, tier: str, seed: int, jobs: int) -> dict:
             'exhaustive': out['exhausted'],
         })
     results.append(check_map(tier))
+    results.append(check_incoming(tier))
     return {
         'results': results, 'wall_s': round(time.time() - t0, 2),
         'coverage': {'interleaving_scenarios': len(SCENARIOS),
@@ -213,6 +214,97 @@ def run(repo: str, tier: str, seed: int, jobs: int) -> dict:
             '%d preemptive switches; bytecode-level races inside one line '
             'are not explored' % maxp,
         ],
+    }
+
+
+def check_incoming(tier: str) -> dict:
+    """One turn of the worker's incoming loop for SUBMIT / SUBMIT_BATCH on
+    every small worker state.  Contract (the wake-up side of "no task waits
+    forever"): the message always starts exactly one of its tasks, i.e. puts
+    one address on the ready queue -- the main loop sleeps in a blocking get
+    on that queue and only looks at the parked tasks when it is awake; the
+    other tasks are parked in order, nothing is lost or duplicated, and the
+    read receipt names the first task of the message."""
+    from bqskit.runtime.message import RuntimeMessage as M
+    t1 = time.time()
+    fails: list[dict] = []
+    n = 0
+    for ready, delayed, nb, kind in [
+        (r, d, k, m)
+        for r in ((), (0,), (0, 1)) for d in (0, 2)
+        for k in (1, 2, 3) for m in ('SUBMIT', 'SUBMIT_BATCH')
+        if not (m == 'SUBMIT' and k > 1)
+    ]:
+        n += 1
+        sc = rt.mk_worker(2, (), None, ready, (), delayed)
+        w = sc.node
+        new = [rt.mk_task(rt.RuntimeAddress(9, k, 0), ()) for k in range(nb)]
+        first_id = new[0].unique_id
+        payload = new[0] if kind == 'SUBMIT' else list(new)
+
+        class OneShot(rt.FakeConn):
+            def __init__(self, name: str, log: list) -> None:
+                super().__init__(name, log)
+                self.turn = 0
+
+            def recv(self) -> Any:
+                self.turn += 1
+                if self.turn == 1:
+                    return (getattr(M, kind), payload)
+                w._running = False          # leave the loop normally
+                return (M.IMPORTPATH, [])
+        w._conn = OneShot('boss', sc.log)
+        q0 = list(w._ready_task_ids)
+        d0 = list(w._delayed_tasks)
+        t0 = dict(w._tasks)
+        scen = 'ready queue %s, %d parked, %s of %d task(s)' % (
+            [str(a) for a in q0], len(d0), kind, nb)
+        try:
+            w.recv_incoming()
+        except BaseException as e:     # noqa: BLE001
+            fails.append({'function': 'Worker.recv_incoming',
+                          'kind': 'ensures', 'scenario': scen, 'args': kind,
+                          'clause': 'raised %s' % type(e).__name__,
+                          'observed': 'raised %s: %s' % (
+                              type(e).__name__, e)})
+            continue
+        q1 = list(w._ready_task_ids)
+        d1 = list(w._delayed_tasks)
+        started = [t for t in new if w._tasks.get(t.return_address) is t]
+        parked = d1[len(d0):]
+        errs = []
+        if q1[:len(q0)] != q0 or len(q1) != len(q0) + 1:
+            errs.append('the message put %d address(es) on the ready queue '
+                        '(exactly one is needed to wake the main loop)'
+                        % (len(q1) - len(q0)))
+        elif len(started) != 1 or q1[-1] != started[0].return_address:
+            errs.append('the address put on the ready queue is not the one '
+                        'task of the message that was started')
+        if d1[:len(d0)] != d0:
+            errs.append('tasks parked earlier were disturbed')
+        if sorted(id(t) for t in started + parked) != sorted(
+                id(t) for t in new):
+            errs.append('started + parked tasks are not the tasks of the '
+                        'message, each once (%d started, %d parked, %d sent)'
+                        % (len(started), len(parked), nb))
+        if any(w._tasks.get(a) is not t for a, t in t0.items()):
+            errs.append('tasks already on the worker were disturbed')
+        if w.most_recent_read_submit != first_id:
+            errs.append('read receipt does not name the first task')
+        for e in errs[:1]:
+            fails.append({'function': 'Worker.recv_incoming',
+                          'kind': 'ensures', 'scenario': scen, 'args': kind,
+                          'clause': e[:300], 'observed': '; '.join(errs)})
+    return {
+        'function': 'Worker.recv_incoming', 'evaluated': n, 'nontrivial': n,
+        'skipped': 0, 'distinct_behaviours': n, 'failures': fails,
+        'spec_errors': [], 'samples': [{'case': 'SUBMIT_BATCH of 3 on a '
+                                        'worker with a non-empty ready '
+                                        'queue'}],
+        'wall_s': round(time.time() - t1, 2), 'exhaustive': True,
+        'scope': 'ready queue with 0-2 entries x 0/2 parked tasks x SUBMIT, '
+                 'SUBMIT_BATCH of 1-3 tasks: one turn of the real loop on a '
+                 'scripted connection',
     }
 
 
@@ -279,6 +371,12 @@ def replay(repo: str, rep: dict) -> dict | None:
     """Re-run a recorded schedule of an interleaving scenario."""
     fi = rep.get('failing_input') or {}
     name = fi.get('function', '')
+    if name == 'Worker.recv_incoming':
+        r = check_incoming('quick')
+        same = [f for f in r['failures']
+                if f['scenario'] == fi.get('scenario')]
+        return {'scenario': fi.get('scenario'), 'reproduced': bool(same),
+                'errors': [f['observed'] for f in same]}
     if not name.startswith('interleave.'):
         return None
     mk = SCENARIOS.get(name.split('.', 1)[1])
